@@ -10,6 +10,7 @@ for d in /verif/seeded/${PFX}*/; do
   id=$(basename "$d")
   prop=$(python3 -c "import json;print(json.load(open('$d/meta.json'))['breaks_property'])")
   by=$(python3 -c "import json,re;m=json.load(open('$d/meta.json'))['caught_by'];print(' '.join(sorted(set(re.findall(r'C[0-9][0-9]', m)))))")
+  if grep -q '"status": "neutralised' "$d/meta.json"; then echo "$id: neutralised by a later fix (see meta.json), skipped"; continue; fi
   cd "$W"
   if ! git apply --check "$d/patch.diff" 2>/dev/null; then echo "$id: PATCH DOES NOT APPLY to current HEAD"; continue; fi
   git apply "$d/patch.diff"
